@@ -249,6 +249,9 @@ def canon(e, env):
             return 'NULL'
         name = canon(c, env)
         a_ = [canon(x, env) for x in e['ch'][1:]]
+        if not a_ and callee_is(e, 'TimeUnitTrait::unit') and e.get('targs'):
+            # a nullary associated function whose meaning is its Self type
+            return '%s::<%s>()' % (name, e['targs'][0])
         if callee_is(e, 'cmp::min', 'cmp::max') and len(a_) == 2:
             return '%s(%s)' % (name.split('::')[-1], ', '.join(sorted(a_)))
         if e.get('callee_res') == 'AssocFn' and a_ and a_[0] in ('self', 'self.view', 'self.0') and \
@@ -576,6 +579,28 @@ def _option_map_or(e):
     return None
 
 
+def _split_and(x):
+    """parts of a canonical conjunction `A && B && C` (top-level split), or None"""
+    parts, d, cur, i = [], 0, [], 0
+    while i < len(x):
+        ch = x[i]
+        if ch in '([{':
+            d += 1
+        elif ch in ')]}':
+            d -= 1
+        if d == 0 and x.startswith(' && ', i):
+            parts.append(''.join(cur))
+            cur = []
+            i += 4
+            continue
+        if d == 0 and x.startswith(' || ', i):
+            return None
+        cur.append(ch)
+        i += 1
+    parts.append(''.join(cur))
+    return parts if all(parts) else None
+
+
 def _prime(en, locals_names):
     """new env in which every (local id, source name) of locals_names reads as the next version
     (name') of its current canonical name: what is read after an assignment is a new value"""
@@ -791,19 +816,32 @@ def _paths(e, env=None, conds=frozenset(), effects=()):
                     continue
                 out_.append(c_)
             return out_
+        def alternatives(parts):
+            # not (A && B && ..) as disjoint alternatives: !A | A && !B | A && B && !C ..
+            # (the rows `if A { if B {X} else {Y} } else {Y}` would produce), A, B .. sorted
+            # validity tests first (they guard the comparisons that follow), then by text
+            parts = sorted(parts, key=lambda c_: (not c_.lstrip('!').startswith('VALID('), c_))
+            out_ = []
+            for i_ in range(len(parts)):
+                alt = decide(list(parts[:i_]) + [_neg(parts[i_])])
+                if alt is not None:
+                    out_.append(alt)
+            return out_
         t2 = decide(t)
-        if t2 is not None:
+        disj = _split_and(t[0][2:-1]) if len(t) == 1 and t[0].startswith('!(') and t[0].endswith(')') else None
+        if disj is not None and len(disj) > 1 and t2 is not None:
+            # the condition itself is a disjunction (a negated conjunction)
+            for alt in alternatives(disj):
+                yield from _paths(c[1], dict(en_t), conds | frozenset(alt), effects)
+        elif t2 is not None:
             yield from _paths(c[1], en_t, conds | frozenset(t2), effects)
         if t2 is None:
             alts = [[]]                    # the else branch is taken unconditionally
         elif len(t) > 1 and len(f) == 1:
-            # not (A && B && ..) as disjoint alternatives: !A | A && !B | A && B && !C ..
-            # (the rows `if A { if B {X} else {Y} } else {Y}` would produce)
-            alts = []
-            for i_ in range(len(t)):
-                alt = decide(list(t[:i_]) + [_neg(t[i_])])
-                if alt is not None:
-                    alts.append(alt)
+            alts = alternatives(t)
+        elif disj is not None and len(disj) > 1:
+            f2 = decide(sorted(disj))
+            alts = [f2] if f2 is not None else []
         else:
             f2 = decide(f) if len(f) == 1 else f
             alts = [f2] if f2 is not None else []
